@@ -1314,3 +1314,36 @@ func lemmaSliceConcat(seq Sequence, c int) Sequence {
 //@   prop C07 C19
 //@ func Selector(sel string) (f Filter, err error)
 //@   prop C07 C19
+
+// An order of leaf parts (the shape the parser and Order produce): the result of an edit owns a
+// fresh part list and nothing is written.  (An order with composite parts may make Order see
+// only orders and panic; that case stays outside the contract.)
+//@ func (ordered Ordered) Expand@leaves(i, n int) (out Location)
+//@   prop C11 C03
+//@   requires len(ordered) >= 1 && (forall k in 0..len(ordered): isLeaf(ordered[k]) && leafDom(ordered[k], 1099511627776))
+//@   requires coord(i) && coord(n) && 0 <= i
+//@   ensures !isnil(out)
+//@   ensures own_list: is(out, Ordered) ==> fresh(out.(Ordered))
+//@   assigns nothing
+//@   loop 1: invariant fresh(locs) && len(locs) == len(ordered) && (forall k in 0..j: !isnil(locs[k]) && !is(locs[k], Ordered))
+//@   loop 1: decreases len(ordered) - j
+
+//@ func (ordered Ordered) Shift@leaves(i, n int) (out Location)
+//@   prop C11 C02
+//@   requires len(ordered) >= 1 && (forall k in 0..len(ordered): isLeaf(ordered[k]) && leafDom(ordered[k], 1099511627776))
+//@   requires forall k in 0..len(ordered): !is(ordered[k], Ambiguous)
+//@   requires coord(i) && coord(n) && 0 <= i && 0 < n
+//@   ensures !isnil(out)
+//@   ensures own_list: is(out, Ordered) ==> fresh(out.(Ordered))
+//@   assigns nothing
+//@   loop 1: invariant fresh(locs) && len(locs) == len(ordered) && (forall k in 0..j: !isnil(locs[k]) && !is(locs[k], Ordered))
+//@   loop 1: decreases len(ordered) - j
+
+//@ func (ordered Ordered) Normalize@leaves(length int) (out Location)
+//@   prop C11 C04
+//@   requires len(ordered) >= 1 && 1 <= length && (forall k in 0..len(ordered): isLeaf(ordered[k]) && leafDom(ordered[k], length))
+//@   ensures !isnil(out)
+//@   ensures own_list: is(out, Ordered) ==> fresh(out.(Ordered))
+//@   assigns nothing
+//@   loop 1: invariant fresh(ll) && len(ll) == len(ordered) && (forall k in 0..i: !isnil(ll[k]) && !is(ll[k], Ordered))
+//@   loop 1: decreases len(ordered) - i
